@@ -196,6 +196,79 @@ theorem spawn_some {k k' : Kernel} {pid : Nat} (h : k.spawn = (k', some pid)) :
     · simp only [List.map_append, List.map_cons, mkKids_pids, ht.pids, ht.nextPid,
         List.append_assoc, List.singleton_append, List.range'_succ]
 
+/-! #### `Popen()` and the virtual clock
+
+Every kernel-call boundary (`tick`: armed faults fire, due deaths resolve) leaves `now` alone; a
+failed `Popen()` takes no time, a successful one takes the `spawnMs` of the behaviour it used (the
+fork/exec — and the `after_spawn` hook — take time). -/
+
+theorem Kernel.dead_now (k : Kernel) (pid st : Nat) : (k.dead pid st).now = k.now := rfl
+
+theorem Kernel.die_now (k : Kernel) (pid st : Nat) : (k.die pid st).now = k.now := by
+  unfold Kernel.die
+  split
+  · split
+    · rfl
+    · rfl
+  · rfl
+
+theorem Kernel.foldl_now {β : Type} (l : List β) (f : Kernel → β → Kernel)
+    (hf : ∀ k b, (f k b).now = k.now) (k : Kernel) : (l.foldl f k).now = k.now := by
+  induction l generalizing k with
+  | nil => rfl
+  | cons x xs ih => exact (ih (f k x)).trans (hf k x)
+
+theorem Kernel.resolve_now (k : Kernel) : k.resolve.now = k.now := by
+  unfold Kernel.resolve
+  apply Kernel.foldl_now
+  intro k p0
+  split
+  · split
+    · split
+      · rfl
+      · rfl
+    · rfl
+  · rfl
+
+/-- a kernel-call boundary does not move the virtual clock -/
+theorem Kernel.tick_now (k : Kernel) : k.tick.now = k.now := by
+  unfold Kernel.tick
+  simp only
+  rw [Kernel.resolve_now, Kernel.foldl_now]
+  intro k f; exact Kernel.die_now _ _ _
+
+/-- a failed `Popen()` takes no (virtual) time -/
+theorem spawn_none_now {k k' : Kernel} (h : k.spawn = (k', none)) : k'.now = k.now := by
+  unfold Kernel.spawn at h
+  simp only at h
+  have ht := Kernel.tick_now k
+  generalize k.tick = k1 at h ht
+  split at h
+  · simp only [Prod.mk.injEq, and_true] at h
+    subst h
+    exact ht
+  · simp at h
+
+/-- a successful `Popen()` advances the clock by the `spawnMs` of the behaviour it used -/
+theorem spawn_some_now {k k' : Kernel} {pid : Nat} (h : k.spawn = (k', some pid)) :
+    k'.now = k.now + k.tick.behavAt.spawnMs := by
+  unfold Kernel.spawn at h
+  simp only at h
+  have ht := Kernel.tick_now k
+  generalize k.tick = k1 at h ht
+  split at h
+  · simp at h
+  · simp only [Prod.mk.injEq, Option.some.injEq] at h
+    rw [← h.1, ← ht]
+
+/-- `Popen()` never moves the clock backwards -/
+theorem spawn_now_le (k : Kernel) : k.now ≤ k.spawn.1.now := by
+  cases h : k.spawn with
+  | mk k' r =>
+    cases r with
+    | none => rw [spawn_none_now h]; exact Nat.le_refl _
+    | some pid => rw [spawn_some_now h]; exact Nat.le_add_right _ _
+
 /-- what `spawnAdopt` does when the exec fails: only the kernel (an ordinary step: no new process,
     the attempt counter) and the ghost log change -/
 theorem spawnAdopt_none (u wid : Nat) (s : State) (h : (s.k.spawn).2 = none) :
@@ -210,12 +283,12 @@ theorem spawnAdopt_none (u wid : Nat) (s : State) (h : (s.k.spawn).2 = none) :
     subst h
     rfl
 
-/-- what `spawnAdopt` does when the exec succeeds -/
+/-- what `spawnAdopt` does when the exec succeeds (`started` is the time before the fork) -/
 theorem spawnAdopt_some (u wid : Nat) (s : State) (pid : Nat) (h : (s.k.spawn).2 = some pid) :
     spawnAdopt u wid s =
       (some pid, { s with
         k := (s.k.spawn).1,
-        objs := s.objs ++ [{ pid := pid, wid := wid, started := (s.k.spawn).1.now }],
+        objs := s.objs ++ [{ pid := pid, wid := wid, started := s.k.now }],
         log := if s.blocked then s.log else s.log ++ [Obs.spawn pid ((s.ws.find? (·.uid = u)).getD defaultWatcher).name wid],
         ws := s.ws.map fun w => if w.uid = u then { w with pids := w.pids ++ [pid] } else w }) := by
   unfold spawnAdopt
